@@ -237,12 +237,56 @@ fn run_child(jobs: &[Job], out: &str, threads: usize) -> bool {
         f.flush().unwrap();
     }
     let exe = std::env::current_exe().expect("current exe");
-    let status = std::process::Command::new(exe)
+    let mut child = std::process::Command::new(exe)
         .args(["child", &jobs_path, "--out", out, "--threads", &threads.to_string()])
         .stderr(std::process::Stdio::null())
-        .status();
+        .spawn()
+        .expect("spawn child");
+    // Watchdog: a child whose output does not grow for a long time is stuck (a blocked runtime
+    // cannot even time its own calls out); it is killed and its open histories count as unfinished.
+    let stall_limit = std::time::Duration::from_secs(
+        std::env::var("DVH_STALL_SECS").ok().and_then(|v| v.parse().ok()).unwrap_or(150),
+    );
+    let mut last_size = 0u64;
+    let mut last_change = std::time::Instant::now();
+    let ok = loop {
+        match child.try_wait() {
+            Ok(Some(status)) => break status.success(),
+            Ok(None) => {}
+            Err(_) => break false,
+        }
+        std::thread::sleep(std::time::Duration::from_millis(200));
+        let size = part_files(out).iter().filter_map(|p| std::fs::metadata(p).ok()).map(|m| m.len()).sum::<u64>();
+        if size != last_size {
+            last_size = size;
+            last_change = std::time::Instant::now();
+        } else if last_change.elapsed() > stall_limit {
+            let _ = child.kill();
+            let _ = child.wait();
+            STALLED.store(true, Ordering::SeqCst);
+            break false;
+        }
+    };
     let _ = std::fs::remove_file(&jobs_path);
-    matches!(status, Ok(s) if s.success())
+    ok
+}
+
+static STALLED: std::sync::atomic::AtomicBool = std::sync::atomic::AtomicBool::new(false);
+
+fn part_files(out: &str) -> Vec<std::path::PathBuf> {
+    let mut paths = Vec::new();
+    if let Some(dir) = std::path::Path::new(out).parent() {
+        let stem = std::path::Path::new(out).file_name().unwrap().to_string_lossy().to_string();
+        if let Ok(rd) = std::fs::read_dir(if dir.as_os_str().is_empty() { std::path::Path::new(".") } else { dir }) {
+            for e in rd.flatten() {
+                let name = e.file_name().to_string_lossy().to_string();
+                if name.starts_with(&format!("{}.t", stem)) && name.ends_with(".part") {
+                    paths.push(e.path());
+                }
+            }
+        }
+    }
+    paths
 }
 
 /// Parent mode: runs all jobs with crash isolation and writes `<out>.<k>.ndjson` chunk files.
@@ -268,7 +312,8 @@ fn parent(jobs: Vec<Job>, out: &str, chunks: usize, threads: usize) {
             for (run, mut lines, complete) in read_parts(out) {
                 if !complete {
                     aborts += 1;
-                    lines.push(json!({"k": "abort", "i": -3, "t": 0, "run": run}).to_string());
+                    let kind = if STALLED.swap(false, Ordering::SeqCst) { "stall" } else { "abort" };
+                    lines.push(json!({"k": kind, "i": -3, "t": 0, "run": run}).to_string());
                     lines.push(json!({"k": "end", "i": -3, "t": 0}).to_string());
                 }
                 finished.insert(run.clone());
